@@ -249,7 +249,7 @@ def oracle_vector(case, rec):
 
 
 LENGTHS = ['hilberthuang', 'hilberthuang_1d', 'holospectrum', 'get_cycle_vector+mask', 'get_cycle_stat', 'phase_align',
-           'bin_by_phase']
+           'bin_by_phase', 'get_cycle_stat/Cycles-object', 'phase_align/Cycles-object']
 
 
 def oracle_lengths(case, rec):
@@ -279,6 +279,14 @@ def oracle_lengths(case, rec):
         f = lambda p, mk: emd.cycles.get_cycle_vector(p, return_good=True, mask=mk)   # noqa: E731
         mk = np.ones(n, dtype=bool)
         good, bads = [phase, mk], [[phase, np.ones(m, dtype=bool)]]
+    elif name == 'get_cycle_stat/Cycles-object':
+        Cobj = emd.cycles.Cycles(phase.copy())
+        f = lambda v: emd.cycles.get_cycle_stat(Cobj, v, func=np.sum)           # noqa: E731
+        good, bads = [x], [[cut(x)]]
+    elif name == 'phase_align/Cycles-object':
+        Cobj = emd.cycles.Cycles(phase.copy())
+        f = lambda p, v: emd.cycles.phase_align(p, v, cycles=Cobj, npoints=12)  # noqa: E731
+        good, bads = [phase, x], [[cut(phase), cut(x)]]
     elif name == 'get_cycle_stat':
         f = lambda c, v: emd.cycles.get_cycle_stat(c, v, func=np.sum)           # noqa: E731
         good, bads = [cyc, x], [[cyc, cut(x)], [cut(cyc), x]]
